@@ -330,8 +330,8 @@ Definition amonitors (a : acase) (v : list Z) : list (N * bool) :=
       match a_fn a with
       | 321%N | 335%N => [(15%N, mon_c15_of false a v); (9%N, mon_c15_of false a v)]
       | 322%N | 323%N => [(15%N, mon_c15_of true a v); (9%N, mon_c15_of true a v)]
-      | 331%N | 332%N => [(15%N, mon_c15_from a v); (9%N, mon_c15_from a v)]
-      | 333%N | 334%N => [(15%N, mon_c15_from a v); (11%N, mon_c15_from a v)]
+      | 331%N | 332%N => [(15%N, mon_c15_from a v); (9%N, mon_c15_from a v); (10%N, mon_c15_from a v)]
+      | 333%N | 334%N => [(15%N, mon_c15_from a v); (11%N, mon_c15_from a v); (10%N, mon_c15_from a v)]
       | 341%N => [(16%N, mon_c16 a v)]
       | 351%N | 352%N | 353%N | 354%N | 355%N | 361%N | 362%N | 363%N | 364%N => [(12%N, mon_c12 a v)]
       | 371%N | 373%N => [(13%N, mon_c13 a v)]
